@@ -1,10 +1,11 @@
 /-
   Model.SetCmd — handlers of internal/modules/set/commands.go over internal/modules/set/set.go.
-  A stored set is a `*Set`: handlers mutate it in place through the pointer (no SetValues, hence no
-  accounting), and some store the *same pointer* under a second key. Pointer identity is the `oid`
-  of `Val.set`; in-place mutation is the `mutObj` primitive. Go map iteration order (which operand
-  SUNION mutates, which key SINTER inspects first) is resolved by `c.order`; math/rand picks of SPOP
-  by `c.hint`.
+  A stored set is a `*Set`: SADD / SREM / SPOP / SMOVE mutate it in place through the pointer (no
+  SetValues, hence no accounting): the `mutObj` primitive. The algebra commands (SDIFF*, SINTER*, SUNION*)
+  always build a new set and never store an operand's own pointer, so no handler makes two keys share
+  an object any more (`oid` 0 = unshared; the pointer identity of `Val.set` is still honoured when a
+  state that holds shared objects is read). Go map iteration order (which key SINTER / SINTERCARD
+  inspect first) is resolved by `c.order`; math/rand picks of SPOP by `c.hint`.
 -/
 import SugarModel.Model.Generic
 namespace Sugar
@@ -244,39 +245,48 @@ def sinterLimit (cmd : List Bytes) (limitIdx : Option Nat) : PRes Int :=
         | .unmod => .unmod "AdaptType outside exact numeric domain"
         | _ => .err (b "limit must be an integer")
 
-/-- SINTERSTORE tail: a single operand is stored as the *same pointer* -/
-def sinterStore (src dest : Bytes) (sets : List (Nat × List Bytes)) (res : List Bytes) : Prog Res :=
-  match sets with
-  | [(o, _)] =>
-    if src == dest then setOrErr [(dest, .set o res)] (.ret (.ok (intReply res.length))) else
-    .call .newOid fun (fresh : Nat) =>
-    .call (.tagOid src (if o != 0 then o else fresh)) fun _ =>
-    setOrErr [(dest, .set (if o != 0 then o else fresh) res)] (.ret (.ok (intReply res.length)))
-  | _ => setOrErr [(dest, .set 0 res)] (.ret (.ok (intReply res.length)))
-
-/-- what follows the operand loop -/
-def sinterTail (mode : Nat) (limit : Int) (src dest : Bytes) (sets : List (Nat × List Bytes)) : Prog Res :=
-  if sets.isEmpty && mode != 1 then .ret (.err (b "not enough sets in the keys provided"))
-  else if sets.isEmpty then .panic "Intersection of no sets (unbounded recursion)"
+/-- what follows the operand loop of SINTER / SINTERCARD (mode 0 / 2) -/
+def sinterTail (mode : Nat) (limit : Int) (sets : List (Nat × List Bytes)) : Prog Res :=
+  if sets.isEmpty then .ret (.err (b "not enough sets in the keys provided"))
   else if mode == 0 then .ret (setArrReply (interAll sets.length (sets.map (·.2))))
-  else if mode == 2 then
+  else
     -- Intersection(limit, …): the halves of three or more operands are intersected in full (limit 0) and only
     -- the two-operand loop at the top stops once `limit` members are found; a single operand comes back whole,
     -- so the handler caps the cardinality it reports as well
     let full := interAll sets.length (sets.map (·.2))
     let card := (if limit > 0 && sets.length ≥ 2 then full.take limit.toNat else full).length
     .ret (.ok (intReply (if limit > 0 && (card : Int) > limit then limit else card)))
-  else sinterStore src dest sets (interAll sets.length (sets.map (·.2)))
 
 def sinterReads (mode : Nat) (cmd : List Bytes) : List Bytes :=
-  if mode == 1 then cmd.drop 2 else
   match (if mode == 2 then cmd.findIdx? (fun t => eqFold t (b "limit")) else none) with
   | some i => (cmd.take i).drop 1
   | none => cmd.drop 1
 
-/-- :159 handleSINTER / :251 handleSINTERSTORE / :199 handleSINTERCARD (mode 0 / 1 / 2) -/
-def handleSInter (mode : Nat) (c : Ctx) (cmd : List Bytes) : Prog Res :=
-  if (mode == 1 && cmd.length < 3) || (mode != 1 && cmd.length < 2) then .ret (.err wrongArgs) else
+/-- SINTERSTORE operand loop `for _, key := range keys.ReadKeys`, in the order of the command line: an absent
+    key is noted (the intersection is empty) and skipped, the first present key that holds no set is an error
+    whatever else is absent; GetValues is called key by key. Hands over (some operand absent, the sets read). -/
+def storeLoop : List (Bytes × Bool) → (Bool → List (List Bytes) → Prog Res) → Prog Res
+  | [], k => k false []
+  | (key, exists_) :: r, k =>
+    if !exists_ then storeLoop r fun _ acc => k true acc else
+    .call (.getValues [key]) fun (vs : List Val) =>
+    match asSet? (vs.headD .nil) with
+    | none => .ret (.err (notSet key))
+    | some (_, ms) => storeLoop r fun e acc => k e (ms :: acc)
+
+/-- :251 handleSINTERSTORE. The result is always a newly allocated set (Intersection copies a lone operand;
+    an absent operand gives the empty set), stored under the destination by SetValues. The handler does not
+    look at its context: the operands are walked in command order. -/
+def handleSInterStore (cmd : List Bytes) : Prog Res :=
+  if cmd.length < 3 then .ret (.err wrongArgs) else
+  .call (.keysExist (cmd.drop 2).eraseDups) fun (ex : List Bool) =>
+  storeLoop ((cmd.drop 2).eraseDups.zip ex) fun empty sets =>
+    let res := if empty then [] else interAll sets.length sets
+    setOrErr [(cmd.getD 1 [], .set 0 res)] (.ret (.ok (intReply res.length)))
+
+/-- SINTER / SINTERCARD (mode 0 / 2): the operand map is walked in Go map order (`c.order`) -/
+def handleSInterRead (mode : Nat) (c : Ctx) (cmd : List Bytes) : Prog Res :=
+  if cmd.length < 2 then .ret (.err wrongArgs) else
   if mode == 2 && !(cmd.all isAscii) then .unmod "non-ASCII token (EqualFold limit)" else
   .call (.keysExist (sinterReads mode cmd).eraseDups) fun (ex : List Bool) =>
   match sinterLimit cmd (if mode == 2 then cmd.findIdx? (fun t => eqFold t (b "limit")) else none) with
@@ -285,59 +295,35 @@ def handleSInter (mode : Nat) (c : Ctx) (cmd : List Bytes) : Prog Res :=
   | .ok limit =>
     interLoop (nthPerm c.order ((sinterReads mode cmd).eraseDups.zip ex))
       (if mode == 0 then .ok (b "*0\r\n") else .ok (intReply 0))
-      (sinterTail mode limit ((nthPerm c.order ((sinterReads mode cmd).eraseDups.zip ex)).headD ([], false)).1 (cmd.getD 1 []))
+      (sinterTail mode limit)
 
-/-- set.Union over distinct objects: the leftmost operand of every recursion half is mutated in place.
-    Returns (index of the result object, member lists after mutation). -/
-def unionObjs : Nat → List (Nat × List Bytes) → List (Nat × List Bytes) → (Nat × List (Nat × List Bytes))
-  -- fuel, operands (index, members) as currently known, table of all objects
-  | _, [], tbl => (0, tbl)
-  | _, [x], tbl => (x.1, tbl)
-  | 0, x :: _, tbl => (x.1, tbl)
-  | f + 1, l, tbl =>
-    let get (tbl : List (Nat × List Bytes)) (i : Nat) : List Bytes := ((tbl.find? (·.1 == i)).map (·.2)).getD []
-    let put (tbl : List (Nat × List Bytes)) (i : Nat) (ms : List Bytes) := tbl.map fun (j, m) => if j == i then (j, ms) else (j, m)
-    match l with
-    | [x, y] => (x.1, put tbl x.1 (setAdd (get tbl x.1) (get tbl y.1)).1)
-    | _ =>
-      let (li, tbl1) := unionObjs f (l.take (l.length / 2)) tbl
-      let (ri, tbl2) := unionObjs f (l.drop (l.length / 2)) tbl1
-      (li, put tbl2 li (setAdd (get tbl2 li) (get tbl2 ri)).1)
+/-- :159 handleSINTER / :251 handleSINTERSTORE / :199 handleSINTERCARD (mode 0 / 1 / 2) -/
+def handleSInter (mode : Nat) (c : Ctx) (cmd : List Bytes) : Prog Res :=
+  match mode with
+  | 1 => handleSInterStore cmd
+  | _ => handleSInterRead mode c cmd
 
-/-- write the mutated operands back through their pointers -/
-def writeBack : List (Bytes × List Bytes × List Bytes) → Prog Res → Prog Res
-  | [], k => k
-  | (key, old, new) :: r, k =>
-    if old == new then writeBack r k else .call (.mutObj key (.set 0 new)) fun _ => writeBack r k
+/-- set.Union: a new set that receives the members of every operand in turn (Set.Add) -/
+def unionMembers (sets : List (List Bytes)) : List Bytes := (setAdd [] sets.flatten).1
 
-/-- SUNION tail once every operand is a distinct, unshared set object -/
-def sunionTail (store : Bool) (dest : Bytes) (objs : List (Bytes × Nat × List Bytes)) : Prog Res :=
-  let tbl0 : List (Nat × List Bytes) := objs.zipIdx.map fun ((_, _, ms), i) => (i, ms)
-  let rt := unionObjs objs.length tbl0 tbl0
-  let res : List Bytes := ((rt.2.find? (·.1 == rt.1)).map (·.2)).getD []
-  let updates := objs.zipIdx.map fun ((k, _, ms), i) => (k, ms, ((rt.2.find? (·.1 == i)).map (·.2)).getD ms)
-  let resKey := (objs.getD rt.1 ([], 0, [])).1
-  writeBack updates <|
-    if !store then .ret (setArrReply res)
-    else if resKey == dest then setOrErr [(dest, .set 0 res)] (.ret (.ok (intReply res.length)))
-    else
-      -- destination receives the same pointer as the (mutated) leftmost operand
-      .call .newOid fun (fresh : Nat) =>
-      .call (.tagOid resKey fresh) fun _ =>
-      setOrErr [(dest, .set fresh res)] (.ret (.ok (intReply res.length)))
+/-- a value SUNION refuses: present (not the nil an absent key reads as) and not a set -/
+def notSetVal (v : Val) : Bool :=
+  match v with
+  | .nil => false
+  | v => (asSet? v).isNone
 
-/-- :513 handleSUNION / :543 handleSUNIONSTORE -/
-def handleSUnion (store : Bool) (c : Ctx) (cmd : List Bytes) : Prog Res :=
+/-- :489 handleSUNION / :511 handleSUNIONSTORE. One GetValues call over the operands; they are then examined
+    in the order of the command line: an absent key (nil) is the empty set, the first value of another type is
+    an error. The union is a newly allocated set — no operand is touched, nothing is shared — and the handler
+    does not look at its context. -/
+def handleSUnion (store : Bool) (_c : Ctx) (cmd : List Bytes) : Prog Res :=
   if (store && cmd.length < 3) || (!store && cmd.length < 2) then .ret (.err wrongArgs) else
   .call (.getValues ((if store then cmd.drop 2 else cmd.drop 1).eraseDups)) fun (vs : List Val) =>
-  match (nthPerm c.order (((if store then cmd.drop 2 else cmd.drop 1).eraseDups).zip vs)).find? fun (_, v) => (asSet? v).isNone with
+  match (((if store then cmd.drop 2 else cmd.drop 1).eraseDups).zip vs).find? fun (_, v) => notSetVal v with
   | some (k, _) => .ret (.err (notSet k))
   | none =>
-    if (nthPerm c.order (((if store then cmd.drop 2 else cmd.drop 1).eraseDups).zip vs)).any fun (_, v) => v.oid != 0
-    then .unmod "operand object shared by several keys"
-    else if vs.isEmpty then .panic "Union of no sets (unbounded recursion)"
-    else sunionTail store (cmd.getD 1 [])
-      ((nthPerm c.order (((if store then cmd.drop 2 else cmd.drop 1).eraseDups).zip vs)).filterMap fun (k, v) =>
-        (asSet? v).map fun (o, ms) => (k, o, ms))
+    let res := unionMembers (vs.filterMap fun v => (asSet? v).map (·.2))
+    if store then setOrErr [(cmd.getD 1 [], .set 0 res)] (.ret (.ok (intReply res.length)))
+    else .ret (setArrReply res)
 
 end Sugar
